@@ -1,18 +1,10 @@
 package checks
 
 import (
-	"bytes"
-	"context"
-	"encoding/binary"
 	"fmt"
 	"math/rand/v2"
 	"testing"
 	"time"
-
-	"google.golang.org/protobuf/proto"
-
-	"github.com/evstack/ev-node/types"
-	pb "github.com/evstack/ev-node/types/pb/evnode/v1"
 
 	"verif/harness/sim"
 )
@@ -22,235 +14,6 @@ import (
 // World: real aggregator (real HeaderSubmissionLoop / DataSubmissionLoop run for windows of simulated
 // time, real pending/watermark code, real store) against the simulated DA layer with scripted
 // outcomes. The DA call log and the disk are the ground truth.
-
-const (
-	hwKey = "/0/m/last-submitted-header-height"
-	dwKey = "/0/m/last-submitted-data-height"
-)
-
-func rawU64(d *sim.Disk, key string) uint64 {
-	v, ok := d.RawGet(key)
-	if !ok || len(v) != 8 {
-		return 0
-	}
-	return binary.LittleEndian.Uint64(v)
-}
-
-type blobInfo struct {
-	kind   int // 0 header, 1 data, 2 junk
-	height uint64
-	hdr    *types.SignedHeader
-	sd     *types.SignedData
-}
-
-func decodeBlob(b []byte) blobInfo {
-	var hp pb.SignedHeader
-	sh := new(types.SignedHeader)
-	if err := proto.Unmarshal(b, &hp); err == nil && sh.FromProto(&hp) == nil && sh.ValidateBasic() == nil {
-		return blobInfo{kind: 0, height: sh.Height(), hdr: sh}
-	}
-	var sd types.SignedData
-	if err := sd.UnmarshalBinary(b); err == nil && sd.Metadata != nil {
-		return blobInfo{kind: 1, height: sd.Height(), sd: &sd}
-	}
-	return blobInfo{kind: 2}
-}
-
-// daLedger is the harness's bookkeeping of what the DA layer accepted from the sequencer node.
-type daLedger struct {
-	w        *sim.World
-	n        *sim.Node
-	ih       uint64
-	callsPos int
-	accH     map[uint64]uint64 // height -> DA height of an accepted header blob
-	accD     map[uint64]uint64
-	maxHW    uint64 // largest persisted header watermark seen
-	maxDW    uint64
-	memHW    uint64
-	memDW    uint64
-	memInc   int
-}
-
-func newLedger(w *sim.World, n *sim.Node) *daLedger {
-	l := &daLedger{w: w, n: n, ih: w.Genesis.InitialHeight, accH: map[uint64]uint64{}, accD: map[uint64]uint64{}}
-	n.DAOf().Probe = func() [2]uint64 { return [2]uint64{rawU64(n.Disk, hwKey), rawU64(n.Disk, dwKey)} }
-	return l
-}
-
-func (l *daLedger) blockEmpty(h uint64) (bool, error) {
-	_, d, err := l.n.Peek().GetBlockData(context.Background(), h)
-	if err != nil {
-		return false, err
-	}
-	return len(d.Txs) == 0, nil
-}
-
-// scan processes new DA calls; returns a violation description or "".
-func (l *daLedger) scan() (oracle, msg string) {
-	ctx := context.Background()
-	st := l.n.Peek()
-	calls := l.n.DAOf().CallsSince(l.callsPos)
-	l.callsPos += len(calls)
-	for _, c := range calls {
-		if c.Op != "submit" || c.By != l.n.Cfg.Name {
-			continue
-		}
-		var infos []blobInfo
-		for _, b := range c.Blobs {
-			infos = append(infos, decodeBlob(b))
-		}
-		if len(infos) == 0 {
-			continue
-		}
-		kind := infos[0].kind
-		for i, in := range infos {
-			if in.kind == 2 {
-				return "C06/undecodable-blob-submitted", fmt.Sprintf("call #%d blob %d decodes neither as signed header nor as signed data", c.Seq, i)
-			}
-			if in.kind != kind {
-				return "C06/mixed-submission", fmt.Sprintf("call #%d mixes headers and data", c.Seq)
-			}
-		}
-		first := infos[0].height
-		pers := c.Probe[kind]
-		if first <= pers {
-			return "C06/resubmitted-below-persisted-watermark", fmt.Sprintf("call #%d starts at height %d although the persisted watermark is already %d", c.Seq, first, pers)
-		}
-		if first < l.ih {
-			return "C06/submitted-below-initial-height", fmt.Sprintf("call #%d starts at height %d, initial height %d", c.Seq, first, l.ih)
-		}
-		// nothing below first may be unaccepted
-		for x := l.ih; x < first; x++ {
-			if kind == 0 {
-				if _, ok := l.accH[x]; !ok {
-					return "C06/skipped-unaccepted-header", fmt.Sprintf("call #%d starts at header %d but header %d was never accepted by the DA layer", c.Seq, first, x)
-				}
-			} else {
-				empty, err := l.blockEmpty(x)
-				if err == nil && !empty {
-					if _, ok := l.accD[x]; !ok {
-						return "C06/skipped-unaccepted-data", fmt.Sprintf("call #%d starts at data %d but the data of non-empty block %d was never accepted by the DA layer", c.Seq, first, x)
-					}
-				}
-			}
-		}
-		for i, in := range infos {
-			if i > 0 {
-				prev := infos[i-1].height
-				if in.height <= prev {
-					return "C06/not-in-height-order", fmt.Sprintf("call #%d: height %d follows %d", c.Seq, in.height, prev)
-				}
-				if kind == 0 && in.height != prev+1 {
-					return "C06/header-gap-in-submission", fmt.Sprintf("call #%d: header %d follows %d", c.Seq, in.height, prev)
-				}
-				if kind == 1 {
-					for x := prev + 1; x < in.height; x++ {
-						if empty, err := l.blockEmpty(x); err == nil && !empty {
-							return "C06/data-gap-in-submission", fmt.Sprintf("call #%d: data %d follows %d but block %d in between is not empty", c.Seq, in.height, prev, x)
-						}
-					}
-				}
-			}
-			hdr, d, err := st.GetBlockData(ctx, in.height)
-			if err != nil {
-				return "C06/submitted-uncommitted-height", fmt.Sprintf("call #%d submits height %d which is not a committed block: %v", c.Seq, in.height, err)
-			}
-			if kind == 0 {
-				if !bytes.Equal(in.hdr.Hash(), hdr.Hash()) {
-					return "C06/blob-differs-from-committed-header", fmt.Sprintf("call #%d: header blob for height %d is not the committed header", c.Seq, in.height)
-				}
-				if s := l.w.VerifySignedByProposer(in.hdr); s != "" {
-					return "C06/blob-not-signed-by-proposer", fmt.Sprintf("call #%d: %s", c.Seq, s)
-				}
-			} else {
-				if len(in.sd.Txs) == 0 {
-					return "C06/empty-data-submitted", fmt.Sprintf("call #%d submits the empty data of height %d", c.Seq, in.height)
-				}
-				db, _ := in.sd.Data.MarshalBinary()
-				cb, _ := d.MarshalBinary()
-				if !bytes.Equal(db, cb) {
-					return "C06/blob-differs-from-committed-data", fmt.Sprintf("call #%d: data blob for height %d is not the committed data", c.Seq, in.height)
-				}
-				if in.sd.Signer.PubKey == nil || !in.sd.Signer.PubKey.Equals(l.w.ProposerPub) {
-					return "C06/blob-not-signed-by-proposer", fmt.Sprintf("call #%d: signed data %d carries a foreign public key", c.Seq, in.height)
-				}
-				if ok, err := l.w.ProposerPub.Verify(db, in.sd.Signature); err != nil || !ok {
-					return "C06/blob-not-signed-by-proposer", fmt.Sprintf("call #%d: signature of signed data %d does not verify under the proposer's key", c.Seq, in.height)
-				}
-			}
-		}
-		for i := 0; i < c.Accepted && i < len(infos); i++ {
-			if kind == 0 {
-				if _, ok := l.accH[infos[i].height]; !ok {
-					l.accH[infos[i].height] = c.Height
-				}
-			} else {
-				if _, ok := l.accD[infos[i].height]; !ok {
-					l.accD[infos[i].height] = c.Height
-				}
-			}
-		}
-	}
-	return "", ""
-}
-
-// watermarks checks monotonicity and soundness of the persisted and in-memory watermarks.
-func (l *daLedger) watermarks() (oracle, msg string) {
-	h := l.n.Height()
-	check := func(name string, hw, dw uint64) (string, string) {
-		if hw > h || dw > h {
-			return "C06/watermark-beyond-chain-height", fmt.Sprintf("%s watermarks header=%d data=%d exceed the chain height %d", name, hw, dw, h)
-		}
-		for x := l.ih; x <= hw; x++ {
-			if _, ok := l.accH[x]; !ok {
-				return "C06/watermark-past-unaccepted-header", fmt.Sprintf("%s header watermark is %d but the DA layer never accepted header %d", name, hw, x)
-			}
-		}
-		for x := l.ih; x <= dw; x++ {
-			if empty, err := l.blockEmpty(x); err == nil && !empty {
-				if _, ok := l.accD[x]; !ok {
-					return "C06/watermark-past-unaccepted-data", fmt.Sprintf("%s data watermark is %d but the DA layer never accepted the data of non-empty block %d", name, dw, x)
-				}
-			}
-		}
-		return "", ""
-	}
-	phw, pdw := rawU64(l.n.Disk, hwKey), rawU64(l.n.Disk, dwKey)
-	if phw < l.maxHW || pdw < l.maxDW {
-		return "C06/watermark-decreased", fmt.Sprintf("persisted watermarks went from header=%d data=%d to header=%d data=%d", l.maxHW, l.maxDW, phw, pdw)
-	}
-	l.maxHW, l.maxDW = phw, pdw
-	if o, m := check("persisted", phw, pdw); o != "" {
-		return o, m
-	}
-	if l.n.Alive {
-		mhw, mdw := l.n.M.VerifLastSubmittedHeaderHeight(), l.n.M.VerifLastSubmittedDataHeight()
-		if l.memInc == l.n.Incarnation && (mhw < l.memHW || mdw < l.memDW) {
-			return "C06/watermark-decreased", fmt.Sprintf("in-memory watermarks went from header=%d data=%d to header=%d data=%d", l.memHW, l.memDW, mhw, mdw)
-		}
-		l.memInc, l.memHW, l.memDW = l.n.Incarnation, mhw, mdw
-		if o, m := check("in-memory", mhw, mdw); o != "" {
-			return o, m
-		}
-	}
-	return "", ""
-}
-
-// allOnDA reports the first committed height whose header or non-empty data is not accepted yet.
-func (l *daLedger) allOnDA() string {
-	h := l.n.Height()
-	for x := l.ih; x <= h; x++ {
-		if _, ok := l.accH[x]; !ok {
-			return fmt.Sprintf("header %d", x)
-		}
-		if empty, err := l.blockEmpty(x); err == nil && !empty {
-			if _, ok := l.accD[x]; !ok {
-				return fmt.Sprintf("data %d", x)
-			}
-		}
-	}
-	return ""
-}
 
 func c06Run(t *testing.T, s *sim.Scn) *sim.Outcome {
 	o := sim.NewOutcome()
@@ -270,15 +33,15 @@ func c06Body(t *testing.T, s *sim.Scn, o *sim.Outcome) {
 	if !r.start(-1, "C06") {
 		return
 	}
-	l := newLedger(w, n)
+	l := sim.NewLedger(w, n)
 	w.DA.AutoAdvance = true
 	faults := 0
 	afterOp := func(i int, what string) bool {
-		if oracle, msg := l.scan(); oracle != "" {
+		if oracle, msg := l.Scan(); oracle != "" {
 			o.Fail(oracle, "", i, what+": "+msg, "submissions are in order, complete, exact and signed")
 			return false
 		}
-		if oracle, msg := l.watermarks(); oracle != "" {
+		if oracle, msg := l.Watermarks(); oracle != "" {
 			o.Fail(oracle, "", i, what+": "+msg, "watermark is monotone and never passes an unaccepted height")
 			return false
 		}
@@ -310,7 +73,7 @@ func c06Body(t *testing.T, s *sim.Scn, o *sim.Outcome) {
 		if !afterOp(i, op.String()) {
 			return
 		}
-		o.States = append(o.States, fmt.Sprintf("%s acc=%d/%d", n.AbstractState(), len(l.accH), len(l.accD)))
+		o.States = append(o.States, fmt.Sprintf("%s acc=%d/%d", n.AbstractState(), len(l.AccH), len(l.AccD)))
 		o.Logf("%d %s %s", i, op, n.AbstractState())
 	}
 	for k, v := range w.DA.Stats {
@@ -319,7 +82,7 @@ func c06Body(t *testing.T, s *sim.Scn, o *sim.Outcome) {
 	// faults stop: the DA layer accepts everything from now on
 	w.DA.SubmitScript = nil
 	pending := int(n.Height()) + 3
-	for j := 0; j < pending && l.allOnDA() != ""; j++ {
+	for j := 0; j < pending && l.AllOnDA() != ""; j++ {
 		r.exec(sim.Op{K: "subh", A: 0}, -1)
 		r.exec(sim.Op{K: "subd", A: 0}, -1)
 		if !n.Alive {
@@ -331,13 +94,13 @@ func c06Body(t *testing.T, s *sim.Scn, o *sim.Outcome) {
 			return
 		}
 	}
-	if missing := l.allOnDA(); missing != "" {
+	if missing := l.AllOnDA(); missing != "" {
 		class := "ih=1"
 		if ih > 1 {
 			class = "ih>1"
 		}
 		o.Fail("C06/not-submitted-after-faults-stop", "C06/not-submitted-after-faults-stop/"+class, len(s.Ops),
-			fmt.Sprintf("DA accepts everything, %d submission rounds ran, but %s (chain height %d, initial height %d) was never accepted; watermarks header=%d data=%d", pending, missing, n.Height(), ih, rawU64(n.Disk, hwKey), rawU64(n.Disk, dwKey)),
+			fmt.Sprintf("DA accepts everything, %d submission rounds ran, but %s (chain height %d, initial height %d) was never accepted; watermarks header=%d data=%d", pending, missing, n.Height(), ih, sim.RawU64(n.Disk, sim.HWKey), sim.RawU64(n.Disk, sim.DWKey)),
 			"everything committed reaches the DA layer once faults stop")
 		return
 	}
